@@ -235,6 +235,16 @@ def run(tier_name=None, replay=None):
     except tlc.TLCError as ex:
         v.machinery_failure(str(ex)[:1500])
         return v.finish()
+    # the broker rules the crash property rests on (requeue at the head, redelivered flag, nothing lost or duplicated):
+    # Broker.tla model-checked on its own (MC_Broker: Conservation, FIFO steps, structural invariants)
+    import judge
+    try:
+        okb, bstats, btail = judge.run_laws("Broker", workers=(8 if thorough else 4), timeout=1500, cfg=("MC_Broker.cfg" if thorough else "MC_Broker_small.cfg"))
+    except Exception as ex:
+        okb, bstats, btail = False, {"law_states": 0}, str(ex)
+    if not okb:
+        v.machinery_failure("Broker.tla violates one of its own invariants (MC_Broker): " + btail[-800:])
+        return v.finish()
     for b in bws:
         b.close()
     batches = [b.path for b in bws if b.lines]
@@ -262,9 +272,10 @@ def run(tier_name=None, replay=None):
                           "operation inside a handler), restart with redelivery, continuation to D1, validated by TLC against Trace.tla together with the outcome of its "
                           "crash-free twin; distinct = distinct (scenario, schedule, crash point, continuation order); non-trivial = the crash actually happened",
                   "samples": samples, "boundary_crashes": counters["boundary"], "quiet_period_crashes": counters["quiet_period_crashes"], "continuation_orders_beyond_first_last": counters["continuations"], "in_handler_crashes": counters["inside"],
-                  "states": stats["states"] + mstats["states"], "transitions": stats["transitions"] + mstats["transitions"], "traces_validated_against_impl": counters["runs"],
+                  "states": stats["states"] + mstats["states"] + bstats["law_states"], "transitions": stats["transitions"] + mstats["transitions"] + bstats["law_states"], "traces_validated_against_impl": counters["runs"],
                   "failed_clauses": {"%s|%s|%s" % kk: n for kk, n in nfail.items()}, "exhaustive": True,
                   "scenarios": sorted(by_scn), "tlc_cpu_s": stats["tlc_cpu_s"],
+                  "broker_model_states": bstats["law_states"],
                   "crash_model": {"engine_states_all_crash_points_all_schedules": mstats["states"], "paths_replayed_into_real_engine": mstats["paths"],
                                   "crash_points_replayed": mstats["crash_points_replayed"], "paths_with_drift": mstats["paths_with_drift"],
                                   "invariant_leads": mstats["leads"], "per_scenario": mstats["scenarios"]}}
